@@ -4,6 +4,7 @@ from amaranth.sim import Simulator
 from vlib import refsem as R
 from vlib.gen_prog import build_program
 from vlib.runner import Mismatch
+from vlib.reuse import elaborated_before
 
 
 def run_case(prog, events, *, domains=None, observe=None):
@@ -72,6 +73,8 @@ def run_case(prog, events, *, domains=None, observe=None):
 
     with warnings.catch_warnings():
         warnings.simplefilter("ignore")
+        if elaborated_before([prog, events], b.m):
+            stats["elaborated_before"] = True
         sim = Simulator(b.m)
         sim.add_testbench(tb)
         sim.run()
